@@ -15,12 +15,13 @@ for gran in (1, 2, 4):
 g("NewRecord_empty", ["NewRecord", "WrRecHeader", "FlushBuffer"]); g("NewRecord_full", ["NewRecord", "WrRecHeader", "FlushBuffer"])
 for gran in (1, 2, 4):
     g("WriteBytes_overflow", ["WriteBytes", "NewRecord"], defs=["-DVERIF_GRAN=%d" % gran], timeout=300); GROUPS[-1]["name"] = "cf_WriteBytes_overflow_g%d" % gran
+g("DreheCodes", ["DreheCodes"], unwind=18, timeout=300, bounded="lines of at most 16 bytes, listing word size 1/2/4")
 g("OpenFile", ["OpenFile", "NewRecord"]); g("CloseFile", ["CloseFile", "NewRecord"], unwind=16)
 GROUPS.append(G("as_WriteCode", "harness/C04/h_as_writecode.c", "h_WriteCode", enforce=[], link=["asmdef.c"], stubs=STUBS, unwind=14, timeout=600,
                 functions=["WriteCode"], object_bits=12, dfcc=False, defs=["-DSTRINGSIZE=64"]))
 TRUSTED_BASE = ["stubs/gfile.c ghost stdio model (witness byte)", "Granularity()/ProgCounter() oracles", "ChkIO: a failed write ends the run"]
 ASSUMPTIONS = ["no relocatable segments (PatchList == ExportList == NULL)", "CodeLen * granularity <= 65535 (16-bit ErgLen)"]
-NOT_COVERED = []
+NOT_COVERED = ["RetractWords (TMS320 parallel instructions)", "relocation / export records (WrPatches)", "WriteBytes with TurnWords on (DreheCodes itself is under obligation)", "code stuffing of WriteCode"]
 EXPLANATION = ""
 
 MANIFEST = dict(
